@@ -148,6 +148,12 @@ type applyIdentify struct {
 
 func (l *countLeaf) outstandingLocked(bit int) int { return l.opens[bit] - l.closes[bit] }
 
+func (l *countLeaf) handleCopy() []byte {
+	l.w.mu.Lock()
+	defer l.w.mu.Unlock()
+	return append([]byte(nil), l.handle...)
+}
+
 func (l *countLeaf) String() string { return fmt.Sprintf("leaf#%d", l.id) }
 
 func (l *countLeaf) openLocked(share virtual.ShareMask) {
